@@ -20,6 +20,8 @@ def run(ctx):
     fr.r_worklist(ctx)
     fr.r_progress(ctx)
     fr.r_memory_only(ctx)
+    # the worklist only works if every bucket that exceeds the capacity is queued under its own id (C15's capacity gate)
+    fr.r_capacity(ctx)
     # the statement refers to C01 ("a forest satisfying C01"): C01's structural clauses are re-checked by this check too
     from props import C01
     import premises
